@@ -218,8 +218,30 @@ class Rewriter:
             return p
         want = {
             "map": 2, "map_or": 3, "map_or_else": 3, "and_then": 2, "unwrap_or_else": 2, "filter": 2, "flatten": 1, "map_err": 2,
+            "ok": 1, "ok_or": 2,
         }
         if name not in want or len(args) != want[name]:
+            return False
+        if name == "ok" and is_res:
+            # Result::ok: Ok(v) -> Some(v), Err(_) -> None
+            inner = dty[len("std::option::Option<"):-1] if dty.startswith("std::option::Option<") else "?"
+            bs, bn = switch_on_subject()
+            v = payload(bs, "Ok", 0, inner)
+            self.blocks[bs]["stmts"].append(_assign(_pl(dest), {"agg": {"adt": "std::option::Option", "variant": "Some", "vidx": 1, "local": False}, "ops": [_mv(v)]}, line))
+            self.blocks[bs]["term"] = {"k": "goto", "to": after}
+            self.blocks[bn]["stmts"].append(_assign(_pl(dest), {"agg": {"adt": "std::option::Option", "variant": "None", "vidx": 0, "local": False}, "ops": []}, line))
+            self.blocks[bn]["term"] = {"k": "goto", "to": after}
+            return True
+        if name == "ok_or" and is_opt:
+            # Option::ok_or(e): Some(v) -> Ok(v), None -> Err(e)
+            bs, bn = switch_on_subject()
+            v = payload(bs, "Some", 1, "?")
+            self.blocks[bs]["stmts"].append(_assign(_pl(dest), {"agg": {"adt": "std::result::Result", "variant": "Ok", "vidx": 0, "local": False}, "ops": [_mv(v)]}, line))
+            self.blocks[bs]["term"] = {"k": "goto", "to": after}
+            self.blocks[bn]["stmts"].append(_assign(_pl(dest), {"agg": {"adt": "std::result::Result", "variant": "Err", "vidx": 1, "local": False}, "ops": [args[1]]}, line))
+            self.blocks[bn]["term"] = {"k": "goto", "to": after}
+            return True
+        if name in ("ok", "ok_or"):
             return False
         if name == "flatten":
             if not is_opt:
@@ -638,6 +660,67 @@ class Rewriter:
             a["stmts"].pop()
             a["term"] = {"k": "goto", "to": tgt, "syn": "folded"}
 
+    def thread_known_variants(self):
+        """jump threading: a block that ends `X = <enum aggregate of variant V>; goto T` where T only reads the discriminant of
+        X and switches on it jumps straight to V's arm (T is pure, so skipping it changes nothing).  Restores the edge guards
+        that a chain of desugared combinators (`.ok().filter(..).map(..).ok_or(..)`) would otherwise lose at every merge."""
+        changed = True
+        rounds = 0
+        while changed and rounds < 8:
+            changed = False
+            rounds += 1
+            for pi, p in enumerate(self.blocks):
+                if p["term"]["k"] != "goto":
+                    continue
+                T = self.blocks[p["term"]["to"]]
+                tt = T["term"]
+                if tt["k"] != "switch" or tt["ty"] == "bool":
+                    continue
+                on = tt["on"].get("move") or tt["on"].get("copy")
+                if on is None or on["proj"]:
+                    continue
+                real = [s_ for s_ in T["stmts"] if s_["k"] == "assign"]
+                dread = [s_ for s_ in real if s_["place"]["l"] == on["l"] and not s_["place"]["proj"] and "discr" in s_["rv"]]
+                if len(dread) != 1:
+                    continue
+                pure_only = len(real) == 1
+                if not pure_only and not (p.get("syn") and len(T["stmts"]) <= 16):
+                    continue
+                xp = dread[0]["rv"]["discr"]
+                if xp["proj"]:
+                    continue
+                X = xp["l"]
+                val = None
+                for s_ in reversed(p["stmts"]):
+                    if s_["k"] == "setdiscr" and s_["place"]["l"] == X:
+                        break
+                    if s_["k"] == "assign" and s_["place"]["l"] == X:
+                        rv = s_["rv"]
+                        if not s_["place"]["proj"] and "agg" in rv and isinstance(rv["agg"], dict) and "adt" in rv["agg"]:
+                            a = self.F.adts.get(rv["agg"]["adt"])
+                            if a is not None:
+                                for v in a["variants"]:
+                                    if v["name"] == rv["agg"]["variant"]:
+                                        val = v["discr"]
+                            else:
+                                val = rv["agg"]["vidx"]
+                        break
+                if val is None:
+                    continue
+                tgt = tt["otherwise"]
+                for v, t_ in tt["arms"]:
+                    if v == val:
+                        tgt = t_
+                if pure_only:
+                    p["term"] = {"k": "goto", "to": tgt, "syn": "threaded"}
+                else:
+                    # T also holds other (side-effect free) statements the arms may use: duplicate them for this path
+                    if any(s_["k"] == "assign" and s_["place"]["l"] == X for s_ in T["stmts"]):
+                        continue
+                    nb = self.new_block(T["line"], copy.deepcopy(T["stmts"]), {"k": "goto", "to": tgt, "syn": "threaded"})
+                    p["term"] = {"k": "goto", "to": nb, "syn": "threaded"}
+                changed = True
+
     def run(self):
         progress = True
         rounds = 0
@@ -657,6 +740,7 @@ class Rewriter:
                     continue
         if self.changed:
             self.fold_const_bool_arms()
+            self.thread_known_variants()
         return self.changed
 
 
@@ -674,7 +758,7 @@ def normalise(F):
             if t["k"] == "call" and "indirect" not in t["callee"]:
                 n = t["callee"].get("name")
                 if n in Rewriter.SINKS or n in ("map", "map_or", "map_or_else", "and_then", "unwrap_or_else", "filter", "flatten",
-                                                "map_err", "then", "then_some", "call", "call_mut", "call_once"):
+                                                "map_err", "then", "then_some", "call", "call_mut", "call_once", "ok", "ok_or"):
                     has = True
                     break
         if not has:
